@@ -35,7 +35,7 @@
 (*                                                                          *)
 (* A link whose target directory is gone is still a link ("dangling"):      *)
 (* os.path.exists() is false for it, islink()/readlink()/rename() work.     *)
-EXTENDS Naturals, Sequences, FiniteSets, TLC
+EXTENDS Integers, Sequences, FiniteSets, TLC
 
 CONSTANTS Instances,    \* instance names the environment may place on the node
           MaxGen,       \* generations (placements) per instance
@@ -77,7 +77,17 @@ EmptyFn == [x \in {} |-> 0]
 
 State0 == [cache |-> EmptyFn, ready |-> FALSE, active |-> FALSE, pending |-> <<>>,
            apps |-> EmptyFn, running |-> EmptyFn, cleanup |-> EmptyFn, tomb |-> {},
-           svc |-> FALSE, cpending |-> <<>>, cleaning |-> {}, capps |-> {}]
+           svc |-> FALSE, cpending |-> <<>>, cleaning |-> {}, capps |-> {}, fuel |-> -1]
+
+(* Crash points inside a handler.  s.fuel = -1 normally.  To cut a handler  *)
+(* of the manager after k of its file-system effects (the process is killed *)
+(* there) it is evaluated with fuel k: every effect below spends one unit   *)
+(* and nothing has an effect once the fuel is 0.  The effects are: create   *)
+(* the container directory, (stage and) rename the running link, rename     *)
+(* running/<a> to cleanup/<c>, touch data/terminated, link cleanup/<name>.  *)
+(* Staged temporaries of fs.symlink_safe are dot files: no link for anyone. *)
+Alive(s) == s.fuel # 0
+Spend(s) == IF s.fuel > 0 THEN [s EXCEPT !.fuel = @ - 1] ELSE s
 
 (* every change of a name in cleanup/ is one directory event for the cleanup *)
 (* service, provided its watch exists: rename onto the name and              *)
@@ -189,21 +199,21 @@ DoCleanupEvent(s) ==
 (* _terminate(a): readlink running/a; rename it to cleanup/<container>;     *)
 (* touch data/terminated; ENOENT anywhere is tolerated                      *)
 Terminate(s, a) ==
-  IF a \notin DOMAIN s.running THEN s
-  ELSE LET c == s.running[a] IN
-       LinkPut([s EXCEPT !.running = Del(@, a),
-                         !.apps = IF c \in DOMAIN @ THEN [@ EXCEPT ![c] = @ \cup {"terminated"}]
-                                  ELSE @],
-               NameC(c), c)
+  IF a \notin DOMAIN s.running \/ ~Alive(s) THEN s
+  ELSE LET c == s.running[a]
+           s1 == Spend(LinkPut([s EXCEPT !.running = Del(@, a)], NameC(c), c))
+       IN IF ~Alive(s1) THEN s1
+          ELSE Spend([s1 EXCEPT !.apps = IF c \in DOMAIN @
+                                         THEN [@ EXCEPT ![c] = @ \cup {"terminated"}] ELSE @])
 
 (* _configure(a): configure() builds apps/<unique name of the cache file    *)
 (* as it is NOW> (idempotent) or returns None when the file is gone;        *)
 (* symlink_safe(running/a) replaces an existing link                        *)
 Configure(s, a) ==
-  IF a \notin DOMAIN s.cache THEN s
-  ELSE LET c == Cont(a, s.cache[a]) IN
-       [s EXCEPT !.apps = IF c \in DOMAIN @ THEN @ ELSE Put(@, c, {}),
-                 !.running = Put(@, a, c)]
+  IF a \notin DOMAIN s.cache \/ ~Alive(s) THEN s
+  ELSE LET c == Cont(a, s.cache[a])
+           s1 == IF c \in DOMAIN s.apps THEN s ELSE Spend([s EXCEPT !.apps = Put(@, c, {})])
+       IN IF ~Alive(s1) THEN s1 ELSE Spend([s1 EXCEPT !.running = Put(@, a, c)])
 
 (* one iteration of the first loop of _synchronize, for container c of      *)
 (* instance a.  left = "a is still a key of the local dict `cached`",       *)
@@ -229,7 +239,7 @@ SyncOne(s, c, left, cg, D) ==
      THEN [s |-> s, left |-> IF genFix THEN keep ELSE FALSE]
      ELSE IF cachedThis /\ ~Finished(s, c)
      THEN [s |-> Configure(s, a), left |-> FALSE]
-     ELSE [s |-> LinkPut(s, lnk, c), left |-> keep]
+     ELSE [s |-> IF Alive(s) THEN Spend(LinkPut(s, lnk, c)) ELSE s, left |-> keep]
 
 RECURSIVE SyncLoop(_, _, _, _, _, _)
 SyncLoop(s, a, gens, left, cg, D) ==
@@ -249,14 +259,23 @@ SyncInst(s, a, ord, D) ==
 
 SyncInsts(s) == {c.i : c \in DOMAIN s.apps} \cup DOMAIN s.cache
 
-RECURSIVE SyncFold(_, _, _, _)
-SyncFold(s, insts, ords, D) ==
-  IF insts = {} THEN s
+(* the whole of _synchronize, in its real order: the first loop over every  *)
+(* container directory, then the second loop over what is left in `cached`  *)
+(* (the order matters only when the run is cut by a crash)                  *)
+RECURSIVE SyncFold1(_, _, _, _, _, _)
+SyncFold1(s, s0, insts, ords, D, left) ==
+  IF insts = {} THEN [s |-> s, left |-> left]
   ELSE LET a == CHOOSE x \in insts : TRUE
-       IN SyncFold(SyncInst(s, a, ords[a], D), insts \ {a}, ords, D)
+           r == SyncLoop(s, a, ords[a], a \in DOMAIN s0.cache, CacheGen(s0, a), D)
+       IN SyncFold1(r.s, s0, insts \ {a}, ords, D, IF r.left THEN left \cup {a} ELSE left)
+RECURSIVE SyncFold2(_, _)
+SyncFold2(s, insts) ==
+  IF insts = {} THEN s
+  ELSE LET a == CHOOSE x \in insts : TRUE IN SyncFold2(Configure(s, a), insts \ {a})
 
 (* ords: [instance -> sequence enumerating ContGens(s, instance)]           *)
-Sync(s, ords, D) == SyncFold(s, SyncInsts(s), ords, D)
+Sync(s, ords, D) ==
+  LET r == SyncFold1(s, s, SyncInsts(s), ords, D, {}) IN SyncFold2(r.s, r.left)
 
 RECURSIVE PermSeqs(_)
 PermSeqs(S) == IF S = {} THEN {<<>>}
@@ -295,6 +314,17 @@ DoOnDeleted(s, nm, D) ==
   IF nm = READY THEN [p EXCEPT !.active = FALSE]
   ELSE IF ~p.active THEN p
   ELSE Terminate(p, nm)
+
+(* the manager is killed inside the handler of the next event, after k of   *)
+(* the handler's effects, and started again (nothing is cleared; the new    *)
+(* process is inactive and has a fresh watch)                               *)
+DoCrash(s, k, ords, D) ==
+  LET e == Head(s.pending)
+      s0 == [s EXCEPT !.fuel = k]
+      r == IF e.k = "C" THEN DoOnCreated(s0, e.n, ords, D)
+           ELSE IF e.k = "M" THEN DoOnModified(s0, e.n, ords, D)
+           ELSE DoOnDeleted(s0, e.n, D)
+  IN DoRestart([r EXCEPT !.fuel = -1])
 
 -----------------------------------------------------------------------------
 (* The property, clause by clause, as predicates on one step (pre, post).   *)
@@ -417,6 +447,11 @@ OnDeleted(nm) == /\ Idle /\ st.pending # <<>> /\ Head1(st) = Ev("D", nm)
 
 OrdChoices(s) == LET R(a) == PermSeqs(ContGens(s, a)) IN
   {f \in [SyncInsts(s) -> UNION {R(a) : a \in SyncInsts(s)}] : \A a \in SyncInsts(s) : f[a] \in R(a)}
+(* kill -9 / OOM of the manager inside a handler, then its restart           *)
+CrashFuel == 0..5
+Crash(k) == /\ Env /\ st.pending # <<>>
+            /\ \E ords \in OrdChoices(st) : st' = DoCrash(st, k, ords, Defects)
+            /\ n' = Tick
 Synchronize == /\ n.phase = "sync"
                /\ \E ords \in OrdChoices(st) : st' = Sync(st, ords, Defects)
                /\ n' = [n EXCEPT !.phase = "idle"]
@@ -437,6 +472,7 @@ Next ==
   \/ \E nm \in AllLinkNames : CleanupCompletes(nm)
   \/ ManagerRestart
   \/ NodeStart
+  \/ \E k \in CrashFuel : Crash(k)
   \/ CleanupStart
   \/ CleanupEvent
   \/ \E nm \in Names : OnCreated(nm)
